@@ -5,7 +5,7 @@ import os
 from lib.coqterm import cbool, cN, cZ, cbytes, clist, copt, cpair
 
 ID = "C44"
-QUICK_N = 1600
+QUICK_N = 1200
 THOROUGH_N = 30000
 SHARD = 100
 COQ_PRELUDE = "From MV Require Import Model.OptManager.\n"
@@ -282,13 +282,31 @@ def gen_history(rng):
                 elif ty in ("int", "optint"):
                     v = rng.choice(INTSTRS[:8] if rng.chance(0.5) else INTSTRS)
                 elif ty in ("bool", "optbool"):
-                    v = rng.choice(BOOLSTRS[:4] if rng.chance(0.6) else BOOLSTRS)
+                    v = "toggle" if rng.chance(0.3) else rng.choice(BOOLSTRS[:4] if rng.chance(0.6) else BOOLSTRS)
                 else:
                     v = rng.choice(STRS + INTSTRS[:4])
                 specs.append([n, v])
             ops.append({"op": "set", "specs": specs, "defer": rng.chance(0.5)})
         else:
             ops.append({"op": "process_deferred"})
+    # deferred scenario: values given for a name before it exists, the option added later, then process_deferred
+    if rng.chance(0.35):
+        free = [n for n in range(6) if n not in types]
+        if free:
+            n = rng.choice(free)
+            ty = rng.choice(TYPES[:5] + TYPES[6:])
+            if rng.chance(0.5):
+                v = good_value(rng, ty) if rng.chance(0.8) else any_value(rng)
+                first = {"op": "update_defer", "kw": [[n, v]] + (kwargs(2) if rng.chance(0.4) else [])}
+            else:
+                src = INTSTRS[:8] if ty in ("int", "optint") else BOOLSTRS[:4] if ty == "bool" else STRS
+                first = {"op": "set", "specs": [[n, rng.choice(src)] for _ in range(rng.weighted([(6, 1), (2, 2)]))], "defer": True}
+            seq = [first, {"op": "add", "n": n, "ty": ty, "d": good_value(rng, ty)}, {"op": "process_deferred"}]
+            if rng.chance(0.3):
+                seq.append({"op": "process_deferred"})
+            pos = sorted(rng.randint(1, len(ops)) for _ in seq)
+            for off, (at, o) in enumerate(zip(pos, seq)):
+                ops.insert(at + off, o)
     # listeners are mostly attached early so that they take part
     if nlisten and rng.chance(0.8):
         pre = []
